@@ -323,7 +323,7 @@ Qed.
 Lemma roots_tw dfuel : forall fuel s k,
   inv tree k s -> k <= max_steps tree -> max_steps tree + 2 <= dfuel ->
   max_steps tree + 2 <= fuel + k ->
-  tw (fun s' => exists k', inv tree k' s') (roots tree init lit_ok dfuel fuel s).
+  tw (fun s' => exists k', inv tree k' s' /\ k' <= max_steps tree) (roots tree init lit_ok dfuel fuel s).
 Proof.
   induction fuel as [|fuel IH]; intros s k Hs Hk Hd Hf; [exfalso; lia|].
   simpl. destruct (root_stack s) as [|ri rest] eqn:Er; [simpl; eauto|].
@@ -361,4 +361,27 @@ Proof.
     + apply (roots_tw tree init lit_ok Hlinks (build_fuel tree) (build_fuel tree) s1 0 H1);
         unfold max_steps, build_fuel; lia.
     + intros s2 _. exact I.
+Qed.
+
+(* the node loop of build runs at most 16 * |tree| + 16 times: linear in the size of the tree *)
+Theorem build_steps_linear (tree : list pnode) (init : binit) (lit_ok : nat -> bool) (root : nat) s e :
+  build tree init lit_ok (build_fuel tree) root = Ok (s, e) -> steps s <= 16 * length tree + 16.
+Proof.
+  unfold build. destruct tree as [|n0 r] eqn:Et; [intros [= <- _]; simpl; lia|]. rewrite <- Et.
+  destruct (negb (root <? length tree)) eqn:Er; [discriminate|].
+  destruct (negb (links_in_range tree)) eqn:El; [discriminate|].
+  apply negb_false_iff in Er. apply Nat.ltb_lt in Er. apply negb_false_iff in El.
+  pose proof (links_in_range_ok tree El) as Hlinks.
+  set (s0 := mkBS (map (fun _ => None) tree) [] [] [] [root] 0).
+  assert (H0 : inv tree 0 s0).
+  { split; [apply map_length|]. split; [|reflexivity].
+    intros i b Hn. apply nth_error_In in Hn. apply in_map_iff in Hn. destruct Hn as (x & Hx & _). discriminate. }
+  pose proof (assign_b_tw tree 0 s0 root (b_new root (i_jump_len init)) H0 Er (items_ok_nil tree root (i_jump_len init))) as A.
+  destruct (assign_b s0 root (b_new root (i_jump_len init))) as [s1| | |]; simpl in A |- *; try discriminate.
+  assert (R : tw (fun s' => exists k', inv tree k' s' /\ k' <= max_steps tree)
+                 (roots tree init lit_ok (build_fuel tree) (build_fuel tree) s1)).
+  { apply (roots_tw tree init lit_ok Hlinks (build_fuel tree) (build_fuel tree) s1 0 A);
+      unfold max_steps, build_fuel; lia. }
+  destruct (roots tree init lit_ok (build_fuel tree) (build_fuel tree) s1) as [s2| | |]; simpl in R |- *; try discriminate.
+  intros [= <- _]. destruct R as (k' & (_ & _ & Hk) & Hle). unfold max_steps in Hle. lia.
 Qed.
